@@ -1,13 +1,53 @@
-import GfsModel.Ranges
+/-
+  C02 — FrameSet queries are mutually consistent views of one duplicate-free list.
+-/
 import GfsModel.FrameSet
 import GfsSpec.Enum
-import GfsSpec.Denote
+import GfsSpec.WF
+import GfsProofs.BlocksLemmas
+import GfsProofs.ListViews
+import GfsProps.C01
 
 namespace Gfs.Props.C02
-open Gfs
+open Gfs Gfs.Spec Gfs.Proofs
 
-/-- NewInclusiveRange never stores a zero step. -/
-theorem C02_mkRng_step_ne_zero (s e st : Int) : (mkRng s e st).step ≠ 0 := by
-  unfold mkRng; simp only; split <;> (try split) <;> omega
+/-- every successfully parsed frame range has a well-formed block list -/
+theorem C02_wf (txt : Bytes) (fs : FrameSet) (h : FrameSet.parse txt = .ok fs) : WF fs.blocks := by
+  obtain ⟨cs, hne, hrt, hv⟩ := (C01.C01_accept_iff txt).mp ⟨fs, h⟩
+  obtain ⟨fs', hfs', _, hwf⟩ := C01.C01_expand cs txt hne hrt hv
+  rw [h] at hfs'
+  cases hfs'
+  exact hwf
+
+/-- C02: for every successfully parsed frame range, length, enumerated frames,
+    frame-at-index, index-of-frame, membership, start and end describe one duplicate-free
+    list `L` — for ALL indices and ALL integers (the quantifier's windows are subsumed):
+    an index outside [0,len) yields an error, a non-member yields index -1 and membership
+    false.  (A frame set can be empty, e.g. "1-1y1"; start/end are the first/last member
+    whenever there is one.) -/
+theorem C02_views (txt : Bytes) (fs : FrameSet) (h : FrameSet.parse txt = .ok fs) :
+    let L := fs.frames
+    L.Nodup ∧ fs.len = L.length ∧
+    (∀ i, fs.frame i = valueAt L i) ∧
+    (∀ v, fs.index v = idxOf L v) ∧
+    (∀ v, fs.hasFrame v = true ↔ v ∈ L) ∧
+    (L ≠ [] → L.head? = some fs.start ∧ L.getLast? = some fs.fin) := by
+  intro L
+  have hwf := C02_wf txt fs h
+  have hL : L = blocksEnum fs.blocks := blocks_iter fs.blocks hwf
+  rw [hL]
+  refine ⟨blocks_nodup _ hwf, blocks_len _ hwf, blocks_value _ hwf, blocks_index _ hwf,
+    blocks_contains _ hwf, ?_⟩
+  intro hne
+  have hbne : fs.blocks ≠ [] := by
+    intro hnil; apply hne; rw [hnil]; rfl
+  exact ⟨blocks_start _ hwf hbne, blocks_fin _ hwf hbne⟩
+
+/-- frame-at-index and index-of-frame are inverse bijections between [0,len) and the members -/
+theorem C02_bijection (txt : Bytes) (fs : FrameSet) (h : FrameSet.parse txt = .ok fs) :
+    (∀ i, 0 ≤ i → i < fs.len → ∃ v, fs.frame i = .ok v ∧ fs.index v = i) ∧
+    (∀ v, fs.hasFrame v = true → 0 ≤ fs.index v ∧ fs.index v < fs.len ∧ fs.frame (fs.index v) = .ok v) := by
+  obtain ⟨hnd, hlen, hval, hidx, hhas, _⟩ := C02_views txt fs h
+  exact views_bijection fs.frames hnd fs.len hlen fs.frame hval fs.index hidx fs.hasFrame hhas
 
 end Gfs.Props.C02
